@@ -10,5 +10,7 @@ CONSTANTS
   FileLayer = FALSE
   SilentRelease = FALSE
   ForgetsHandle = FALSE
+  MaxMigrate = 1
+  RegisterOnce = FALSE
 SPECIFICATION GSpec
 INVARIANTS Emit
